@@ -154,6 +154,10 @@ def validate_sections(ds: xr.Dataset, sections: dict[str, list[slice]]):
             "ds.data_vars "
         )
 
+        assert np.all(
+            np.isfinite(ds[k].values)
+        ), f"The reference temperature {k} contains NaN/inf values"
+
         for vi in v:
             assert ds.x.sel(x=vi).size > 0, (
                 f"Better define the {k} section. You tried {vi}, "
